@@ -398,6 +398,12 @@ func r08o(c *an.Ctx) {
 	}
 	cancels := an.CallsNamed(fn, "(*core/environment.Manager).cancelCallsPendingAwait")
 	if len(cancels) == 0 {
+		// the cancellation may live in another helper (expanded in place): the calls of Call.Cancel themselves
+		cancels = an.Calls(fn, func(nm string, _ ssa.CallInstruction) bool {
+			return strings.HasSuffix(nm, "callable.Call).Cancel") || strings.HasSuffix(nm, ").cancelCallsPendingAwait")
+		})
+	}
+	if len(cancels) == 0 {
 		c.Lost("cancelCallsPendingAwait in TeardownEnvironment")
 		return
 	}
